@@ -239,6 +239,8 @@ func errorExcerpts(c *explore.Ctx) {
 
 var edge *guardpage.Region
 
+var spareFills = []byte{'"', '\\', '0', ']', '}', 'e', ',', 'a'}
+
 var edgeAlphabet = []byte(`{}[]",:\-0.eE tfn u` + "\x80\xe2\n\x00a/")
 
 func pageEdge(c *explore.Ctx) {
@@ -249,14 +251,21 @@ func pageEdge(c *explore.Ctx) {
 	first := c.Choose(len(edgeAlphabet))
 	var n int64
 	try := func(doc []byte) {
-		for _, atEnd := range []bool{true, false} {
+		for placement := 0; placement < 2+len(spareFills); placement++ {
 			var b []byte
-			if atEnd {
-				b = edge.AtEnd(doc)
-			} else {
-				b = edge.AtStart(doc, '"')
+			var where string
+			switch {
+			case placement == 0:
+				b, where = edge.AtEnd(doc), "ending at the last accessible byte"
+			case placement == 1:
+				b, where = edge.AtStart(doc, '"'), "starting at the first accessible byte"
+			default:
+				// a window of a larger buffer: 24 bytes of spare capacity behind the document hold other bytes
+				fill := spareFills[placement-2]
+				buf := bytes.Repeat([]byte{fill}, len(doc)+24)
+				copy(buf, doc)
+				b, where = buf[:len(doc)], fmt.Sprintf("followed by %q bytes in its spare capacity", fill)
 			}
-			where := map[bool]string{true: "ending at the last accessible byte", false: "starting at the first accessible byte"}[atEnd]
 			heap := append([]byte{}, doc...)
 			type res struct {
 				valid  bool
@@ -950,7 +959,7 @@ func Spec() *explore.Spec {
 			{Name: "layouts-encode", ShardDepth: 1, Body: layoutsEncode, Doc: "every type shape of C01 plus pointer-shaped leaves nested 1-3 levels in single-field structs and one-element arrays x boundary values x {by value, by pointer, inside []any, as map value, in a typed slice, in a typed map} x {Marshal, Encoder with indent, Append(0)}"},
 			{Name: "layouts-decode", ShardDepth: 1, Body: layoutsDecode, Doc: "the same type shapes x (34 generic documents incl. mismatching, truncated and malformed ones + the encodings of the type's own boundary values) x {Unmarshal into *T and **T, Decoder with UseNumber, Parse with ZeroCopy|DisallowUnknownFields|DontMatchCaseInsensitiveStructFields}"},
 			{Name: "error-excerpts", ShardDepth: 2, Body: errorExcerpts, Doc: "malformed documents lead + erroneous token + 0..70 bytes (ASCII, spaces, two-byte runes) + one of 12 tails (stray continuation bytes, complete and cut multi-byte runes) for 6 leads x 10 erroneous tokens, through 10 entry points (Valid, Unmarshal into any / struct / []string, Parse, Decoder, Tokenizer, Compact, Indent, Marshal of a RawMessage): what follows the place of the error, at any distance, never makes the call panic"},
-			{Name: "page-edge", ShardDepth: 2, Body: pageEdge, Doc: "documents placed so that they end at the last byte before an inaccessible page, and so that they start at the first byte behind one: all byte strings <= 4 over a 26-byte alphabet, strings of length 0..80 with each alphabet byte in each of the last 9 positions (closed, unclosed, inside an array), numbers / literals / escapes / containers cut at every length: Valid, Unmarshal into any and string, Tokenizer (with String), Escape, Unescape touch nothing outside the document (a fault is caught) and answer as they do for a copy elsewhere"},
+			{Name: "page-edge", ShardDepth: 2, Body: pageEdge, Doc: "documents placed so that they end at the last byte before an inaccessible page, and so that they start at the first byte behind one: all byte strings <= 4 over a 26-byte alphabet, strings of length 0..80 with each alphabet byte in each of the last 9 positions (closed, unclosed, inside an array), numbers / literals / escapes / containers cut at every length: Valid, Unmarshal into any and string, Tokenizer (with String), Escape, Unescape touch nothing outside the document (a fault is caught) and answer as they do for a copy elsewhere; the same documents as windows of a larger buffer whose spare capacity holds quotes, backslashes, digits, closers, commas or letters"},
 			{Name: "corrupt-typed", ShardDepth: 1, Body: corruptTyped, Doc: "typed documents (encodings of boundary values) truncated at every offset and with every byte replaced by each of 14 structural bytes, decoded into their own type"},
 			{Name: "ladder-decode", ShardDepth: 3, HangSeconds: 300, MaxWorkers: 8, Body: ladderDecode, Doc: "documents nested 100 ... 100,000 (thorough 1,000,000 and 5,000,000) deep in 6 shapes (arrays, objects, mixed, recursive-struct shaped), closed and unclosed, through 14 entry points (Valid, Unmarshal into any / RawMessage / struct{} / []any / map / recursive struct types, Tokenizer, Decoder, Compact, Indent, Parse)"},
 			{Name: "ladder-encode", ShardDepth: 3, HangSeconds: 300, MaxWorkers: 8, Body: ladderEncode, Doc: "values nested 100 ... 100,000 (thorough 1,000,000 and 5,000,000) deep in 7 shapes ([]any, map[string]any, pointer chains, recursive struct via slice / map / pointer, recursive slice type, *any chains) through Marshal / Append / Encoder"},
